@@ -38,7 +38,7 @@ from netqasm.lang.instr.flavour import NVFlavour as _NVF  # noqa: E402
 KEPT_NV = _NVF()
 
 
-def transpile_gate(mn: str, ids: List[int], imm: Optional[List[int]], debug=False, unknown=False):
+def transpile_gate(mn: str, ids: List[int], imm: Optional[List[int]], debug=False, unknown=False, context=""):
     """Real transpiler on `set Q0 a; [set Q1 b;] gate`.  Returns the emitted gate
     sequence with registers resolved to virtual qubit ids, as executed.
     unknown: the operands of a mov are R registers (values not known to the transpiler), as the SDK emits when it
@@ -48,15 +48,31 @@ def transpile_gate(mn: str, ids: List[int], imm: Optional[List[int]], debug=Fals
         instrs0.append(TWO[mn](reg0=Rr(1), reg1=Rr(0)))
         out0 = NVSubroutineTranspiler(Subroutine(instructions=instrs0, app_id=0), debug=debug).transpile()
         return resolve(out0.instructions)
+    def gate_():
+        if mn in ONE:
+            return ONE[mn](reg=Q(0))
+        if mn in ROT:
+            return ROT[mn](reg=Q(0), imm0=Immediate(imm[0]), imm1=Immediate(imm[1]))
+        return TWO[mn](reg0=Q(0), reg1=Q(1))
     instrs: List[Any] = [core.SetInstruction(reg=Q(i), imm=Immediate(v)) for i, v in enumerate(ids)]
-    if mn in ONE:
-        instrs.append(ONE[mn](reg=Q(0)))
-    elif mn in ROT:
-        instrs.append(ROT[mn](reg=Q(0), imm0=Immediate(imm[0]), imm1=Immediate(imm[1])))
-    else:
-        instrs.append(TWO[mn](reg0=Q(0), reg1=Q(1)))
+    skip = 0
+    if context == "earlier":
+        # the same gate text appeared earlier in the subroutine, when the registers pointed at other qubits (the SDK
+        # addresses every gate through Q0 / Q1): only the expansion of the LAST gate is judged
+        other = [(v + 1) % 3 for v in ids] if len(ids) == 1 else ([1, 2] if 0 in ids else [0, 1] if mn != "mov" else [0, 2])
+        pre = [core.SetInstruction(reg=Q(i), imm=Immediate(v)) for i, v in enumerate(other)] + [gate_()]
+        skip = len(resolve(NVSubroutineTranspiler(Subroutine(instructions=list(pre), app_id=0), debug=debug).transpile().instructions))
+        instrs = pre + instrs
+    elif context == "classical":
+        # classical registers with the same indices are written between the qubit registers and the gate
+        instrs += [core.SetInstruction(reg=Register(RegisterName.R, 0), imm=Immediate(3 if ids[0] == 0 else 0)),
+                   core.SetInstruction(reg=Register(RegisterName.C, 1), imm=Immediate(0 if len(ids) > 1 and ids[1] else 2)),
+                   core.SetInstruction(reg=Register(RegisterName.M, 0), imm=Immediate(1))]
+    instrs.append(gate_())
     sub = Subroutine(instructions=instrs, app_id=0)
     out = NVSubroutineTranspiler(sub, debug=debug).transpile()
+    if context:
+        return resolve(out.instructions)[skip:]
     if not debug and (len(ids) == 2 or (imm or [0])[0] % 3 == 0):
         # what the controller sees: the bytes, decoded with an NV flavour object that has been alive since the check started
         # (as a controller keeps one), after other flavour objects were created in the process
@@ -96,13 +112,15 @@ def resolve(instructions) -> List[Dict[str, Any]]:
 
 def cases(tier: str, rng: random.Random):
     rows = []
-    def add(mn, ids, imm, kind="unitary", hw=False, unknown=False):
+    def add(mn, ids, imm, kind="unitary", hw=False, unknown=False, context=""):
         src = [{"mn": mn, "qs": [i + 1 for i in ids], "imm": imm or []}]
         row = {"id": len(rows) + 1, "prop": "C07", "kind": kind, "src": src, "mov": [ids[0] + 1, ids[1] + 1] if kind == "mov" else [1, 1],
                "gate": mn, "ids": ids, "hw": hw, "err": ""}
         settings.set_is_using_hardware(hw)
         try:
-            row["tgt"] = transpile_gate(mn, ids, imm, debug=(len(rows) % 5 == 0), unknown=unknown)
+            row["tgt"] = transpile_gate(mn, ids, imm, debug=(len(rows) % 5 == 0), unknown=unknown, context=context)
+            if context:
+                row["context"] = context
         except Exception as ex:
             row["tgt"] = []
             row["err"] = f"{type(ex).__name__}: {ex}"[:200]
@@ -119,6 +137,19 @@ def cases(tier: str, rng: random.Random):
                     add(mn, [a, b], None)
     for a, b in ((0, 1), (1, 0), (0, 2), (2, 0)):
         add("mov", [a, b], None, kind="mov")
+    # the gate is not the first thing in its subroutine
+    for ctx in ("earlier", "classical"):
+        for mn in ONE:
+            for q in (0, 1, 2):
+                add(mn, [q], None, context=ctx)
+        for mn in ("cnot", "cphase"):
+            for a in (0, 1, 2):
+                for b in (0, 1, 2):
+                    if a != b:
+                        add(mn, [a, b], None, context=ctx)
+        for k, mn in enumerate(ROT):
+            for q in (0, 1):
+                add(mn, [q], [3 + k, 3], context=ctx)
     # operands the transpiler cannot know (R registers): documented to be the move from the communication qubit to memory
     for b in (1, 2):
         add("mov", [0, b], None, kind="mov", unknown=True)
